@@ -31,14 +31,18 @@ ACTIONS = [("DoSeedCompartment", "SeedAddCompartment"), ("DoSeedFlow", "SeedAddF
 
 CONSTS = {
     "quick": [
-        dict(Pool="{1, 2, 4}", MaxComps=3, MaxFlows=3, OutKinds="{1, 2}", FlowKinds="{1}", MaxOps=2, Thin=64, FullDepth=1, SeedThin=1, SampleMod=24),
+        dict(Pool="{1, 2, 4}", MaxComps=3, MaxFlows=3, OutKinds="{1, 2}", FlowKinds="{1}", MaxOps=2, Thin=64, FullDepth=1, SeedThin=1, SeedThinFrom=9, SampleMod=24),
     ],
     "thorough": [
-        dict(Pool="{1, 2, 4, 5}", MaxComps=3, MaxFlows=4, OutKinds="{1, 2}", FlowKinds="{1, 2}", MaxOps=3, Thin=96, FullDepth=1, SeedThin=1, SampleMod=96),
-        dict(Pool="{1, 2, 3, 4, 5, 6}", MaxComps=4, MaxFlows=5, OutKinds="{1, 2}", FlowKinds="{1}", MaxOps=3, Thin=512, FullDepth=0, SeedThin=3, SampleMod=96),
+        # all 3-compartment digraphs over a 4-name pool, three operations deep
+        dict(Pool="{1, 2, 4, 5}", MaxComps=3, MaxFlows=4, OutKinds="{1, 2}", FlowKinds="{1}", MaxOps=3, Thin=96, FullDepth=1, SeedThin=1, SeedThinFrom=9, SampleMod=64),
+        # 4 compartments incl. the special names EFFECT / METABOLITE (seed flows thinned)
+        dict(Pool="{1, 2, 3, 4, 5}", MaxComps=4, MaxFlows=5, OutKinds="{1, 2}", FlowKinds="{1}", MaxOps=3, Thin=512, FullDepth=0, SeedThin=6, SeedThinFrom=3, SampleMod=64),
+        # nonlinear flows between compartments
+        dict(Pool="{1, 2, 5}", MaxComps=3, MaxFlows=3, OutKinds="{1}", FlowKinds="{1, 2}", MaxOps=2, Thin=64, FullDepth=1, SeedThin=1, SeedThinFrom=9, SampleMod=32),
     ],
 }
-COV = dict(Pool="{1, 2}", MaxComps=2, MaxFlows=1, OutKinds="{1, 2}", FlowKinds="{1}", MaxOps=1, Thin=1, FullDepth=1, SeedThin=1, SampleMod=1000003)
+COV = dict(Pool="{1, 2}", MaxComps=2, MaxFlows=1, OutKinds="{1, 2}", FlowKinds="{1}", MaxOps=1, Thin=1, FullDepth=1, SeedThin=1, SeedThinFrom=9, SampleMod=1000003)
 
 
 def _cfg(path, consts, seed):
@@ -445,9 +449,9 @@ def check_case(case, seed=0):
                 after = list(r.compartment_names)
                 if after != names:
                     bad("subs", "order_changed", f"{label} changed compartment_names from {names} to {after}", sub=label,
-                        spec_predicts_order_change=case["subs_order"] != case["order"])
-                if after != case["subs_order"]:
-                    drift.append(f"{label}: order {after} vs transcription {case['subs_order']}")
+                        spec_predicts_order_change=any(o != case["order"] for o in case["subs_orders"]))
+                if after not in case["subs_orders"]:
+                    drift.append(f"{label}: order {after} vs transcription {case['subs_orders']}")
     rate_syms = [s for s in syms if str(s).startswith(("K_", "CL_", "VM_"))]
     if rate_syms:
         s0 = rate_syms[rng.randrange(len(rate_syms))]
